@@ -42,4 +42,82 @@ CLAIMS = {
         "technique": "Lean 4: decide +kernel over the whole finite domain of translated tables, lifted to membership lemmas; symbolic proof for the occupancy-dependent pawn helpers; exhaustive differential",
         "translator": True,
     },
+    "C01": {
+        "text": "Lean model of the generator (collect_moves for all piece types, pins/check masks, castling, the repaired e.p. test, the MoveGen iterator) and a mailbox specification of the rules of chess. Kernel-checked so far: is_legal = membership in the generated list; the iterator yields exactly what its entry list denotes (each move once, promotion entries times four), via the C10 refinement. The full equivalence generator = Spec.legal for all well-formed boards (LegalsSpec) is stated and not yet proved; it is decided on every run by the oracle: the real generator's move set (also masked, and is_legal on all 20480 triples on a subsample) against Spec.legalMoves on corpus, play and motif positions. Four genuine e.p. defects were found this way and fixed.",
+        "note": "Trusted: Lean kernel (axioms propext, Classical.choice, Quot.sound); the hand-written model and the ~300-line rules specification; translator for all tables; the proof is partial (see DESIGN.md §6 C01): where no theorem covers a case the assurance is the differential oracle on generated positions.",
+        "technique": "Lean 4 model + rules specification, kernel-checked structural theorems, differential oracle implementation vs specification (partial proof)",
+        "translator": True,
+    },
+    "C02": {
+        "text": "Kernel-checked for every board and move (no hypothesis): side to move flips; full-move +1 after Black; half-move reset by pawn moves and captures else +1 (saturating at the 16-bit limit); castling rights = the per-square masks of destination and source (translated grid proved equal to the a1/e1/h1/a8/e8/h8 rule); e.p. marker set on and only on a double pawn step; checked operations accept exactly is_legal and refuse otherwise. For quiet moves and plain captures by non-pawns on a partitioned board: the successor's mailbox is exactly 'source emptied, destination holds the mover' and the partition is preserved. Pawn specials and castling placement are covered by the oracle (successor vs Spec.apply for every legal move of every generated position).",
+        "note": "Trusted: Lean kernel (axioms propext, Classical.choice, Quot.sound); hand-written model of move_unchecked_into tied to the code by exact successor comparison on every legal move of the generated positions; placement theorem not yet extended to pawn moves/castling.",
+        "technique": "Lean 4 theorems about the line-by-line model of make-move (projection lemmas, per-square partition reasoning) + differential oracle vs Spec.apply",
+        "translator": True,
+    },
+    "C03": {
+        "text": "Kernel-checked: the four-way game state is the specification's classification given correct 'no legal move', 'in check' and clock; every parsed board carries from-scratch pin/check state; from-scratch state is determined by placement and side to move (so a moved and a rebuilt board agree as soon as pinInfoOk is preserved). Preservation of pinInfoOk by make-move (incr_eq) is not yet proved; it is decided per run: incrementally kept pinned/checkers/hash of every position reached by moves vs the model's from-scratch values, and the moved board vs the board rebuilt from text (legal moves, check, hash, Display, Debug, ==).",
+        "note": "Trusted: Lean kernel; hand-written model; partial proof (incr_eq open) backed by the moved-vs-rebuilt differential on playouts that force discovered, castling-rook, promotion and e.p.-discovered checks.",
+        "technique": "Lean 4 theorems (classification, parser establishes derived state) + differential moved-vs-rebuilt oracle (partial proof)",
+        "translator": True,
+    },
+    "C04": {
+        "text": "Kernel-checked on the translated key tables: all 794 keys pairwise distinct, non-zero, 64-bit; table shapes. Kernel-checked for all boards: boards that compare equal and carry the from-scratch piece hash have equal hashes (eq_hash), the hash ignores clocks and pin state; the standard-position literal and every parsed board carry the from-scratch hash. Preservation of 'stored hash = from-scratch hash' by make-move is not yet proved; it is decided per run on every position reached by moves and on transposing move-order pairs.",
+        "note": "Trusted: Lean kernel (axioms propext, Classical.choice, Quot.sound); translator for the keys and the standard literal; partial proof (incremental maintenance open).",
+        "technique": "Lean 4: decide +kernel over the translated key table, algebraic theorems on the hash, differential oracle for incremental maintenance (partial proof)",
+        "translator": True,
+    },
+    "C05": {
+        "text": "Kernel-checked for every well-formed board with clocks <= 9999: parse_fen(display b) = b in all nine fields including hash and pin/check state (parse_display), and the canonical text re-prints byte for byte (display_parse); number, castling-letter and start-position round trips. The writer/parser models are tied to the code by exact byte comparison of Display and by both round trips on generated boards plus a forced rights x marker x clock grid.",
+        "note": "Trusted: Lean kernel (axioms propext, Classical.choice, Quot.sound); hand-written models of Display and parse_fen (after the fix: commit for the e.p. rank); the builder cannot set rights from outside the crate.",
+        "technique": "Lean 4 round-trip proof by induction over ranks/files with a generalised missing-counter, structural decimal lemma, permutation argument for the hash",
+        "translator": True,
+    },
+    "C06": {
+        "text": "Kernel-checked for every byte string: the parser model never reaches a panic (parse_total); every accepted board went through validate and update_pin_info, its sets form a partition, its hash is the from-scratch hash, rights < 16, clocks <= 9999, and it is well-formed (parse_WF: one king per side, <= 16 men per side, opponent not in check, rights only with king and rook at home, marker only on an empty square behind an enemy pawn — the clauses of Board.validate, after two fix: commits). The link from Board.validate's bitboard clauses to the mailbox clauses of the specification is decided per run (every accepted board re-checked with Spec.valid).",
+        "note": "Trusted: Lean kernel (axioms propext, Classical.choice, Quot.sound); hand-written byte-level model of parse_fen tied to the code by valid, truncated, grammar-mutated and random byte strings (outcome and error variant compared).",
+        "technique": "Lean 4 proof by induction over the input bytes with a placement invariant + differential on malformed and valid inputs",
+        "translator": True,
+    },
+    "C07": {
+        "text": "Kernel-checked preconditions of the unchecked operations: slider-table indices in range for all squares and occupancies (C08), book reads in range and walk terminating (C17, native_decide), parser never panics (C06), castle index < 16 and both kings present on every parsed/validated board (king_sq's pop_unchecked), saturating clocks stay in u16. Not yet proved: move-list capacity (<= 18 entries) and check_mask's assertion; those and machine-level UB are exercised by running every stream of every property under the checked build, plus an extremal generator (16 mobile men + two e.p. capturers). Partial by nature.",
+        "note": "Trusted: Lean kernel; C17's native_decide (Lean.ofReduceBool) for the book bound; the checked build (debug assertions + overflow checks) as the observer of violated preconditions; compiled-artefact UB is outside any model.",
+        "technique": "Lean 4 precondition theorems reused from C06/C08/C17 + checked-build execution of all streams (partial)",
+        "translator": True,
+    },
+    "C10": {
+        "text": "Kernel-checked refinement of the iterator model (after the fix: commits) to 'the list of moves its entries denote under the mask': len = size_hint = its length, is_empty iff it is empty, next yields its head and leaves its tail, draining yields it exactly once in order, remove and remove_move filter it, set_mask re-bases it up to order — for every state with the promotion cursor at a group boundary. The two recorded findings (remove_move of one promotion choice; editing while a promotion group is half yielded) are exactly the excluded states and are listed in known_findings.jsonl.",
+        "note": "Trusted: Lean kernel (axioms propext, Classical.choice, Quot.sound); hand-written model of MoveGen tied to the code by exact replay of operation sequences; the specification monitor checks every trace against the remaining-move set.",
+        "technique": "Lean 4 refinement proof (simulation to an abstract move list, induction over fuel, permutation lemma for set_mask) + lock-step operation-sequence correspondence",
+        "translator": True,
+    },
+    "C11": {
+        "text": "Lean model of search_with/alphabeta/eval for both policies with the timeout as a poll index; total by structural recursion on fuel (termination for every expiry index is part of the definition being accepted). Kernel-checked: polls are monotone; with the limit already expired the search returns no move for every board and history. 'Returned move is legal / none iff no legal moves' for general k is not yet proved; it is decided per run by exact model equality (move, score, depth, evaluations, polls) and the specification oracle for k = 0..6 and geometrically up to thousands of polls. Partial: wall clock replaced by poll index.",
+        "note": "Trusted: Lean kernel; hand-written engine model (positional = false, the only shipped configuration) tied to the code exactly; DurationTimeout assumed monotone.",
+        "technique": "Lean 4 executable model of the search with fuel + exact correspondence on (position, expiry index) + specification oracle (partial proof)",
+        "translator": True,
+    },
+    "C12": {
+        "text": "Kernel-checked score facts the argument rests on: a mate-in-one for the mover is never improved upon by any score a root move can return, and beats the initial sentinel, so with the strict is_better the first mating move found is kept. The statement for the whole search is decided per run by the oracle on positions with zero, one and several mating moves (specification: checkmate after the returned move; mate-in-one score only with a mating move), with exact model equality.",
+        "note": "Trusted: Lean kernel; engine model tied exactly; partial proof.",
+        "technique": "Lean 4 order lemmas on regenerated score comparison + specification oracle on generated mating positions (partial proof)",
+        "translator": True,
+    },
+    "C13": {
+        "text": "Kernel-checked for all scores: negation is an involution reversing the order; the sentinels, is_better, Ord::max/min, update_cutoff and the cutoff test of the two policies are exact duals under negating and swapping the window. The statement for the whole search (mirror position => negated score per completed depth) is decided per run by the metamorphic oracle on the implementation, both searches being tied to the model exactly.",
+        "note": "Trusted: Lean kernel (axioms propext, Classical.choice, Quot.sound); engine model; partial proof (eval/legals mirror lemmas and alphabeta = minimax open).",
+        "technique": "Lean 4 duality lemmas + metamorphic differential on mirrored positions (partial proof)",
+        "translator": True,
+    },
+    "C15": {
+        "text": "Kernel-checked on the plugin model: an illegal move leaves the state unchanged and is reported invalid; a legal move installs the successor and reports valid with the table's answer; set_board clears the table; board equality is an equivalence; the flag is raised exactly when a position's saturating counter becomes 3. Refinement to the specification (legal gate = rules, successor = rules, third occurrence) needs C01/C02 in full and is decided per run through the real cdylib loaded with abi_stable. Partial: dynamic loading is runtime behaviour.",
+        "note": "Trusted: Lean kernel; plugin/ThreeFold models; the reading of 'third occurrence' recorded in DESIGN.md §5; encodings across the ABI are C16.",
+        "technique": "Lean 4 state-machine theorems + lock-step operation-sequence correspondence through the real plugin (partial proof)",
+        "translator": True,
+    },
+    "C17": {
+        "text": "The book table is regenerated from the source; the iterator model is proved to move to strictly smaller indices (termination from any node, fuel index+1 suffices) and to refuse reads beyond the table; the walk of all 29037 nodes with the model's checked make-move finds no illegal move, no out-of-range read (native_decide). The same walk by the real iterator with the real move_mut and by the specification's rules must give identical counts and digest.",
+        "note": "Trusted: Lean kernel for the structural theorems; native_decide (axiom Lean.ofReduceBool: the Lean compiler) for the one evaluation over the whole book; translator for BOOK; legality is the model's move_new, tied to the rules by C01's oracle and by the specification-side walk.",
+        "technique": "Lean 4: structural termination proof + native_decide evaluation over the translated book + exhaustive walk on implementation, model and specification",
+        "translator": True,
+    },
 }
